@@ -147,7 +147,6 @@ func (se *subscriptionEntry) Listen(conn net.Conn) {
 		se.queryerCloseCh <- struct{}{}
 		simhook.Yield("sub.listen.queryer-closed")
 		se.Lock()
-		simhook.Yield("sub.listen.locked")
 		defer se.Unlock()
 		close(se.queryerCloseCh)
 		close(se.closeCh)
